@@ -1,5 +1,5 @@
 \* 24 factors (2-4 values each); 40 random candidates per greedy step
 CONSTANTS Cand = 40
 SPECIFICATION Spec
-INVARIANTS PairwiseCovered Dump
+INVARIANTS PairwiseCovered RotationsCover SinglesCover DefaultsInDomain Dump
 CHECK_DEADLOCK FALSE
